@@ -48,6 +48,9 @@ pub struct LinkInner {
     /// frames after which the sink stops accepting (livelock guard); 0 = default
     pub budget: usize,
     pub over_budget: bool,
+    /// virtual instant of the last frame written and the longest pause between two writes so far
+    pub last_write: Option<tokio::time::Instant>,
+    pub max_gap: std::time::Duration,
 }
 
 #[derive(Clone)]
@@ -142,6 +145,14 @@ impl Link {
         }
     }
     /// frames the link carries before the livelock guard stops the writer (0 = default 100 000)
+    /// longest pause between two frames written so far, including the pause since the last one
+    pub fn longest_pause(&self) -> std::time::Duration {
+        let l = self.0.lock().unwrap();
+        match l.last_write {
+            Some(t) => l.max_gap.max(tokio::time::Instant::now() - t),
+            None => std::time::Duration::MAX,
+        }
+    }
     pub fn set_budget(&self, n: usize) {
         self.0.lock().unwrap().budget = n;
     }
@@ -185,6 +196,11 @@ impl Sink<Bytes> for LinkSink {
             return Err(TErr("sink"));
         }
         l.log.push(item.clone());
+        let now = tokio::time::Instant::now();
+        if let Some(prev) = l.last_write {
+            l.max_gap = l.max_gap.max(now - prev);
+        }
+        l.last_write = Some(now);
         if let Some(n) = l.drop_after {
             if l.log.len() > n {
                 return Ok(());
